@@ -4,6 +4,7 @@ import (
 	"fmt"
 	"math"
 	"math/bits"
+	mrand "math/rand"
 	"os"
 	"os/exec"
 	"strings"
@@ -24,6 +25,9 @@ type C18Case struct {
 	Bits int    `json:"bits,omitempty"`
 	Base int    `json:"base"` // first Example seed
 	N    int    `json:"n"`    // number of draws
+	// fresh: the program under test has pinned Go's global math/rand source (rand.Seed(constant) in a TestMain or
+	// a test, GODEBUG=randautoseed=0 in the child processes): the library's choice of seeds must not depend on it
+	Pinned bool `json:"pinned,omitempty"`
 }
 
 type c18 struct{}
@@ -593,8 +597,18 @@ func firstCases(n int) []string {
 
 func (p c18) fresh(c *Ctx, cs *C18Case) Outcome {
 	out := Outcome{NonTrivial: true}
+	pin := func() {
+		if cs.Pinned {
+			mrand.Seed(42) //lint:ignore SA1019 deprecated but in use; a no-op only for programs that declare go >= 1.24
+		}
+	}
+	pin()
 	a := firstCases(cs.N)
+	pin()
 	b := firstCases(cs.N)
+	if cs.Pinned {
+		out.Classes = append(out.Classes, "fresh-with-pinned-global-math/rand")
+	}
 	if len(a) == 0 || len(b) == 0 {
 		out.Viol = violf("C18:fresh:no-cases", "Check without a seed ran no test case")
 		return out
@@ -616,6 +630,9 @@ func (p c18) fresh(c *Ctx, cs *C18Case) Outcome {
 	for i := 0; i < 2; i++ {
 		cmd := exec.Command(os.Getenv("VERIF_BIN"), "-test.run", "^$")
 		cmd.Env = append(os.Environ(), "VERIF_CHILD=fresh")
+		if cs.Pinned {
+			cmd.Env = append(cmd.Env, "GODEBUG=randautoseed=0")
+		}
 		b, err := cmd.Output()
 		if err != nil {
 			out.Classes = append(out.Classes, "child-failed")
@@ -675,9 +692,9 @@ func (p c18) Loop(c *Ctx) {
 		}
 	}
 	// 4. freshness
-	for i := 0; i < c.Pick(1, 4); i++ {
+	for i := 0; i < c.Pick(2, 4); i++ {
 		if mine() {
-			run(&C18Case{What: "fresh", N: 60})
+			run(&C18Case{What: "fresh", N: 60, Pinned: i%2 == 1})
 		}
 	}
 	// 4. sampled ranges of every kind, generated (and shrunk) by the driver
